@@ -327,8 +327,68 @@ def run(chk, ctx):
             chk.undecide('C05.W', cons, why)
         else:
             chk.ob('C05.W', cons, okk, why, site='pamqp/header.py')
+    flag_bit_rule(chk, ctx)
     chk.assume('values assigned by the library conversions (Decimal, '
                'float, datetime) are the reference values')
+
+
+def flag_bit_rule(chk, ctx):
+    """Each of the 14 properties is taken from the wire exactly when the
+    flag bit the grammar assigns to it is set in the first flag word (also
+    the deprecated cluster-id, which the library never sends itself: its
+    mask is exercised on receive only; an unused bit that is set selects
+    nothing)."""
+    from .. import hdrlayout as H
+    chk.rule('C05.B', 'a property is decoded exactly when the flag bit the '
+             'grammar gives it is set: the guard of each decoded property '
+             'value is (first flag word & reference mask) != 0')
+    d = H.decode(ctx)
+    it = d['interp']
+    done = set()
+    for o, ob in d['rets']:
+        p = ob.attrs.get('properties')
+        if not isinstance(p, T.Ref):
+            continue
+        po = it.obj(o.state, p)
+        for spec_name, py, _wtype, bit in ctx.spec.properties():
+            if py in done:
+                continue
+            v = po.attrs.get(py, I.ABSENT)
+            cons = 'property %s flag' % py
+            site = 'pamqp/base.py'
+            if v is I.ABSENT or not (isinstance(v, Sym) and v.op == 'cond'):
+                continue
+            g = v.args[0]
+            neg = False
+            while isinstance(g, Sym) and g.op == 'not':
+                g, neg = g.args[0], not neg
+            mask = None
+            if isinstance(g, Sym) and g.op in ('ne', 'eq') and \
+                    g.args[1] == 0 and isinstance(g.args[0], Sym) and \
+                    g.args[0].op == 'bitand':
+                neg = neg != (g.op == 'eq')
+                consts = [a for a in g.args[0].args if isinstance(a, int)]
+                mask = consts[0] if len(consts) == 1 else None
+            elif isinstance(g, Sym) and g.op == 'truthy' and \
+                    isinstance(g.args[0], Sym) and \
+                    g.args[0].op == 'bitand':
+                consts = [a for a in g.args[0].args if isinstance(a, int)]
+                mask = consts[0] if len(consts) == 1 else None
+            if mask is None:
+                continue
+            done.add(py)
+            taken = v.args[2] if neg else v.args[1]
+            reads = isinstance(taken, Sym) and T.mentions(
+                taken, lambda t: t.op == 'decval')
+            chk.ob('C05.B', cons, mask == bit and reads,
+                   'decoded when flags & %#06x is set; the grammar assigns '
+                   '%#06x to %s' % (mask, bit, spec_name), site=site)
+    missing = [py for _n, py, _w, _b in ctx.spec.properties()
+               if py not in done]
+    if missing:
+        chk.undecide('C05.B', 'properties %s' % ', '.join(missing),
+                     'the decoded value is not a conditional on one bit of '
+                     'the flag word')
 
 
 def classify_guard(g):
